@@ -6,9 +6,11 @@
     names.  The [spec_*] functions (Spec/TableSpec.v) are list comprehensions
     over the list of rows. *)
 From Coq Require Import Permutation Sorting.Sorted QArith.
-From CG3 Require Import Lib.PyZ Lib.Chars Lib.StableSort Lib.Val Model.Csv Model.Table Model.TableLoad Model.TableRun
+From CG3 Require Import Lib.PyZ Lib.Chars Lib.StableSort Lib.Val Model.Csv Model.Table Model.TableLoad Model.TableRun Model.TableIndex
      Spec.TableSpec Proofs.TableBase Proofs.CsvProofs Proofs.TableProofs Proofs.TableSortProofs
-     Proofs.TableOpsProofs Proofs.TableLoadProofs.
+     Proofs.TableOpsProofs Proofs.TableLoadProofs Proofs.TableIndexProofs.
+From CG3 Require Model.View Model.Serial Proofs.TableSerialProofs.
+Import CG3.Proofs.TableSerialProofs.
 Import ListNotations.
 Open Scope Z_scope.
 
@@ -298,3 +300,128 @@ Proof. exact cast_int_float. Qed.
 
 Theorem literal_text_in_text_column : cast_str_to_array [s_True; [120]; s_None] = Ok [CB true; CS [120]; CN].
 Proof. exact cast_literals_in_text. Qed.
+
+(** ---------------------------------------------------------------- index_name, title and legend
+
+    An indexed table is a column store plus the name of its index column
+    (Model/TableIndex.v); [index_ok t ix] is the state after [table.index_name = ix]
+    succeeded: the index column is first and its values are pairwise different. *)
+
+(** setting index_name: the column moves to the front, every row keeps its cells *)
+Theorem index_name_set : forall t (n : str), wf t -> In n (hdr t) -> unique_col (col_of t n) = true ->
+  activate t (Some n) = Ok (mkIT (move_front n t) (Some n)) /\
+  wf (move_front n t) /\
+  hdr (move_front n t) = n :: filter (fun c => negb (str_eqb c n)) (hdr t) /\
+  rows (move_front n t) =
+    spec_get_columns (hdr t) (rows t) (n :: filter (fun c => negb (str_eqb c n)) (hdr t)) /\
+  index_ok (move_front n t) (Some n).
+Proof. exact activate_set. Qed.
+
+(** ... it is rejected (ValueError) exactly for an unknown column or repeated values *)
+Theorem index_name_rejected : forall t (n : str), wf t ->
+  (~ In n (hdr t) \/ unique_col (col_of t n) = false) -> activate t (Some n) = Er E_Value.
+Proof. exact activate_rejects. Qed.
+
+Theorem index_values_pairwise_different : forall col, unique_col col = true <-> pairwise_ne col.
+Proof. exact unique_col_iff. Qed.
+
+(** table[label, column]: the cell of the first row whose index cell equals the label; KeyError when no row has it *)
+Theorem row_label_lookup : forall t (n c : str) label v,
+  wf t -> index_ok t (Some n) -> In c (hdr t) ->
+  it_lookup (mkIT t (Some n)) label c = Ok v ->
+  exists i, (i < nrows t)%nat /\ cell_eqb (nth i (col_of t n) CN) label = true /\
+            (forall j, (j < i)%nat -> cell_eqb (nth j (col_of t n) CN) label = false) /\
+            v = nth (pos c (hdr t)) (nth i (rows t) []) CN.
+Proof. exact it_lookup_spec. Qed.
+
+Theorem row_label_missing : forall t (n c : str) label,
+  wf t -> index_ok t (Some n) ->
+  (forall x, In x (col_of t n) -> cell_eqb x label = false) ->
+  it_lookup (mkIT t (Some n)) label c = Er E_Key.
+Proof. exact it_lookup_missing. Qed.
+
+(** filtered and sorted keep the index (same rows as without an index, index still first and unique) *)
+Theorem indexed_filtered : forall t ix f columns,
+  wf t -> index_ok t ix ->
+  incl (default_cols t columns) (hdr t) -> NoDup (default_cols t columns) ->
+  default_cols t columns <> [] ->
+  exists t', it_filtered (mkIT t ix) f columns = Ok (mkIT t' ix) /\ hdr t' = hdr t /\ wf t' /\
+             index_ok t' ix /\
+             rows t' = spec_filtered (hdr t) (rows t) f (default_cols t columns).
+Proof. exact it_filtered_spec. Qed.
+
+Theorem indexed_sorted : forall t ix columns reverse t',
+  wf t -> (hdr t = [] -> nrows t = 0%nat) -> index_ok t ix ->
+  sorted t columns reverse = Ok t' ->
+  NoDup (snd (sort_columns t columns reverse)) ->
+  (forall c, In c (snd (sort_columns t columns reverse)) -> In c (fst (sort_columns t columns reverse)) ->
+             dec_normal_col (col_of t c)) ->
+  it_sorted (mkIT t ix) columns reverse = Ok (mkIT t' ix) /\ index_ok t' ix.
+Proof. exact it_sorted_keeps_index. Qed.
+
+(** transposed of an indexed table takes its header from [select_as_header], not
+    from the index column (the repaired behaviour, fix C20-9), and drops the index *)
+Theorem indexed_transposed : forall t ix (new : str) (select : option str) (sah : str),
+  wf t -> hdr t <> [] ->
+  sah = match select with Some (c :: s) => c :: s | _ => hd [] (hdr t) end ->
+  In sah (hdr t) ->
+  length (dedup [] (map (proj (hdr t) [sah]) (rows t))) = nrows t ->
+  NoDup (spec_transposed_header (hdr t) (rows t) new sah) ->
+  (forall r, In r (rows t) ->
+     coerce_col (proj (hdr t) (filter (fun c => negb (str_eqb c sah)) (hdr t)) r) =
+     proj (hdr t) (filter (fun c => negb (str_eqb c sah)) (hdr t)) r) ->
+  exists t', it_transposed (mkIT t ix) new select = Ok (mkIT t' None) /\
+             hdr t' = spec_transposed_header (hdr t) (rows t) new sah /\ wf t' /\
+             rows t' = spec_transposed (hdr t) (rows t) sah.
+Proof. exact it_transposed_spec. Qed.
+
+(** write (title row, header, rows, legend row) then load_table(with_title,
+    with_legend, index_name): the same title, legend and indexed table *)
+Theorem typed_table_title_legend_index_roundtrip : forall d (title legend : str) t ix,
+  delim_okb d = true -> wf t -> hdr t <> [] ->
+  forallb field_okb (hdr t) = true -> forallb typed_col_okb (cols t) = true ->
+  field_okb title = true -> field_okb legend = true ->
+  index_ok t ix ->
+  write_then_load_tl d title legend (mkIT t ix) = Ok (title, legend, mkIT t ix).
+Proof. exact table_title_legend_index_roundtrip. Qed.
+
+(** ---------------------------------------------------------------- object-dtype sort keys
+
+    A key column holding None, or numbers next to strings, has numpy dtype
+    object.  As the FIRST key of a table with two or more rows the code raises
+    TypeError -- and so does Python's sort of the row tuples (None < 1, 1 < "a"
+    are TypeErrors): there is no sorted list of rows to agree with.  (Reversed
+    object keys raise the same way, see the Examples in Proofs/TableSortProofs.v;
+    object columns of mutually comparable numbers, and object columns that are
+    only compared on ties of earlier keys, are left to the correspondence.) *)
+Theorem sorted_object_first_key_type_error : forall t columns reverse (c0 : str) rest,
+  wf t ->
+  fst (sort_columns t columns reverse) = c0 :: rest ->
+  snd (sort_columns t columns reverse) = [] ->
+  nodup_strs (c0 :: rest) = true ->
+  incl (c0 :: rest) (hdr t) ->
+  (2 <= nrows t)%nat ->
+  dtype_of (col_of t c0) = DObj ->
+  incomparable_col (col_of t c0) = true ->
+  sorted t columns reverse = Er E_Type.
+Proof. exact sorted_object_first_key_raises. Qed.
+
+(** ---------------------------------------------------------------- JSON and pickle
+
+    [Table.to_rich_dict] / [__getstate__] and [deserialise_tabular] / [__setstate__]
+    are modelled and proved by property C10 (Model/Serial.v, [table_roundtrip]);
+    [to_serial] renders a C20 table as that model's table (cells as JSON scalars,
+    floats as their repr, numpy dtype names), [of_serial] reads header, typed cells
+    and index_name back.  Pickle stores the same dictionary; gzip / bz2 are taken
+    to be identity wrappers. *)
+Theorem table_json_pickle_roundtrip : forall t index attrs,
+  wf t ->
+  forallb Serial.stripped (hdr t) = true ->
+  index_okb t index = true ->
+  floats_normal t ->
+  exists d t',
+    Serial.table_to_dict (to_serial t index attrs) = Serial.JObj d /\
+    Serial.table_of_dict d = View.Ok t' /\
+    of_serial t' = Some (hdr t, cols t, index) /\
+    Serial.t_attrs t' = attrs.
+Proof. exact table_json_roundtrip. Qed.
